@@ -1273,6 +1273,11 @@ func runFD09(p *Prog, r *RuleRun) {
 			return ""
 		}
 	}
+	// small helpers of the snapshot type (e.g. "last index of this segment") are part of the decision
+	inlineHelpers := func(callee *ssa.Function) bool {
+		return pkgRelOf(p, callee) == "" && callee != lastFn && callee.Parent() == nil && len(callee.Blocks) <= 6 &&
+			callee.Signature.Results().Len() == 1
+	}
 	effect := func(ins ssa.Instruction, eval func(ssa.Value) fdVal) (string, bool) {
 		switch x := ins.(type) {
 		case *ssa.MapUpdate:
@@ -1290,7 +1295,7 @@ func runFD09(p *Prog, r *RuleRun) {
 	}
 	// head truncation
 	{
-		spec := &fdSpec{Symbol: symbols("newMin"), Effect: effect, MaxVisits: 1}
+		spec := &fdSpec{Inline: inlineHelpers, Symbol: symbols("newMin"), Effect: effect, MaxVisits: 1}
 		names := []string{"newMin", "Max", "last", "tailLast", "b:unsealed"}
 		var bad []string
 		n := enumAssignments(names, 0, 3, func(a map[string]int64) bool {
@@ -1322,7 +1327,7 @@ func runFD09(p *Prog, r *RuleRun) {
 	}
 	// tail truncation
 	{
-		spec := &fdSpec{Symbol: symbols("newMax"), Effect: effect, MaxVisits: 1}
+		spec := &fdSpec{Inline: inlineHelpers, Symbol: symbols("newMax"), Effect: effect, MaxVisits: 1}
 		names := []string{"newMax", "Base"}
 		var bad []string
 		n := enumAssignments(names, 0, 3, nil, func(a map[string]int64) {
@@ -1358,6 +1363,7 @@ func runFD10(p *Prog, r *RuleRun) {
 		r.Unknown("anchor", "?", "state.firstIndex / state.lastIndex / WAL.createNextSegment not found")
 		return
 	}
+	v := newWalVocab(p)
 	sym := func(val ssa.Value) string {
 		if c, ok := val.(*ssa.Call); ok {
 			switch eventName(c) {
@@ -1376,7 +1382,13 @@ func runFD10(p *Prog, r *RuleRun) {
 			return "Base"
 		case "MaxIndex":
 			return "Max"
-		case "nextBaseIndex":
+		}
+		// the base-index hint for an empty log: the snapshot's hint field, or a uint64 parameter of the function
+		// that creates the next segment
+		if nb := v.nextBaseIndex; nb != nil && loadedField(val) == nb {
+			return "nextBase"
+		}
+		if prm, ok := val.(*ssa.Parameter); ok && prm.Parent() == cns && prm.Type().String() == "uint64" {
 			return "nextBase"
 		}
 		return ""
